@@ -584,3 +584,29 @@ package scanner
 //@   modifies *
 //@   ensures isSpace(c) ==> normal && result == scanContinue && s.step == stateTypesShortcutBeforePipe
 //@   ensures c == '|' ==> normal && result == scanContinue && s.step == stateTypesShortcutAfterPipe
+
+//@ func stateInAnnotationObjectKey(s, c)
+//@   props C13
+//@   requires s != nil && s.stack != nil && s.returnToStep != nil && s.prevContextsStack != nil && 1 <= s.index && s.index <= len(s.data)
+//@   maypanic
+//@   modifies *
+//@   ensures !(old(s.boundary) == 0 && c == ':') && c == old(s.boundary) ==> normal && result == scanContinue && s.step == stateEndValue
+//@   ensures !(old(s.boundary) == 0 && c == ':') && c != old(s.boundary) && c == ' ' ==> normal && result == scanContinue && s.step == stateInAnnotationObjectKeyAfter
+//@   ensures !(old(s.boundary) == 0 && c == ':') && c != old(s.boundary) && c != ' ' && (c < 32 || c == '"' || isNewLine(c)) ==> panics && typeis(pv, errors.DocumentError) && unbox(pv, errors.DocumentError).code == errors.ErrInvalidCharacterInAnnotationObjectKey
+//@   ensures !(old(s.boundary) == 0 && c == ':') && c != old(s.boundary) && c != ' ' && !(c < 32 || c == '"' || isNewLine(c)) ==> normal && result == scanContinue && s.step == old(s.step)
+//@ func stateBeginAnnotationObjectKey(s, c)
+//@   props C13
+//@   requires s != nil && 1 <= s.index && s.index <= len(s.data)
+//@   maypanic
+//@   modifies s.step, s.boundary
+//@   ensures c == '"' ==> normal && result == scanBeginLiteral && s.boundary == '"' && s.step == stateInString
+//@   ensures c != '"' ==> (panics <==> (c == ':' || isNewLine(c) || c == 92 || c == 0 || c < 32))
+//@   ensures c != '"' && normal ==> result == scanContinue && s.boundary == 0 && s.step == stateInAnnotationObjectKey
+//@ func stateBeginAnnotationObjectKeyOrEmpty(s, c)
+//@   props C13
+//@   requires s != nil && s.stack != nil && s.prevContextsStack != nil && 1 <= s.index && s.index <= len(s.data)
+//@   maypanic
+//@   modifies s.step, s.boundary, s.finds, s.finds[*], s.context.Type, s.context.ArrayHasItem, s.prevContextsStack.vals
+//@   ensures normal && c == '}' ==> result == scanContinue && len(s.finds) == old(len(s.finds)) + 1 && s.finds[old(len(s.finds))] == lexeme.ObjectEnd
+//@   ensures normal && c != '}' ==> len(s.finds) == old(len(s.finds)) + 1 && s.finds[old(len(s.finds))] == lexeme.ObjectKeyBegin
+//@   ensures normal && c == '"' ==> result == scanBeginLiteral && s.step == stateInString
